@@ -323,8 +323,31 @@ def ti_sections(spec, version, child_key="addons", opts=None):
         d["stage2"] = dict((k, st[k]) for k in ("mainimage", "instimage") if st[k])
     m = spec["media"]
     if m["discnum"] or m["totaldiscs"]:
-        d["media"] = {"discnum": str(m["discnum"]), "totaldiscs": str(m["totaldiscs"])}
+        # the file holds integers (doc/treeinfo-1.0.rst: `discnum = <int>`): a bool in the API object (bool <: int) is written as 1 / 0
+        d["media"] = {"discnum": str(int(m["discnum"])), "totaldiscs": str(int(m["totaldiscs"]))}
     return d
+
+
+def ti_chain_ambiguous(spec, version):
+    """<= 0.3 files: a path field of variant X is looked up in `variant-<uid>`, `variant-<id>`, `addon-<uid>`, `addon-<id>` (the old
+    format allowed sections named by the bare id).  Content in which one of these names is the section of ANOTHER variant (a child
+    whose id is some other variant's UID) cannot be expressed in that format: X would inherit the other variant's paths."""
+    if vt(version) > (0, 3):
+        return False
+    allv = []
+
+    def walk(vs):
+        for v in vs:
+            allv.append(v)
+            walk(v["variants"])
+    walk(spec["variants"])
+    own = dict((id(v), ("addon-" if v["type"] == "addon" else "variant-") + v["uid"]) for v in allv)
+    secs = set(own.values())
+    for v in allv:
+        cand = set(["variant-" + v["uid"], "variant-" + v["id"], "addon-" + v["uid"], "addon-" + v["id"]]) - set([own[id(v)]])
+        if cand & secs:
+            return True
+    return False
 
 
 def ini_text(sections):
